@@ -57,8 +57,10 @@ fn name(rng: &mut Rng, k: usize) -> String {
 
 fn gen_w(rng: &mut Rng) -> W {
     let nstates = rng.below(7) as usize;
-    let ninputs = rng.below(6) as usize;
-    let nsteps = rng.range(1, 8) as usize;
+    // a witness may have no step at all (an init frame only, or nothing but the property line)
+    let nsteps = if rng.chance(1, 8) { 0 } else { rng.range(1, 8) as usize };
+    // the format names an input where it gives its value, so a witness without steps has no inputs to name
+    let ninputs = if nsteps == 0 { 0 } else { rng.below(6) as usize };
     let mut w = W { failed: vec![], init: vec![], init_names: vec![], inputs: vec![], input_names: vec![] };
     let nf = rng.range(1, 3);
     let mut f: Vec<u32> = (0..nf).map(|_| if rng.chance(1, 8) { rng.next() as u32 } else { rng.below(20) as u32 }).collect();
@@ -218,7 +220,7 @@ impl Check for C16 {
         "witnesses_round_tripped"
     }
     fn rule(&self) -> String {
-        "G4 complete witnesses: 1-3 failed properties (any order, indices up to 2^32-1), 0-6 states (bit-vectors of widths 1..200 and arrays with 1..2^iw recorded entries for iw<=5 or up to 12 entries for iw up to 64 (the array value type of the bit-vector library cannot hold wider indices at all), zero-valued entries, dense and sparse carriers with arbitrary defaults, recorded index list in any order), 0-5 bit-vector inputs, 1-8 steps, names over the printable alphabet without whitespace ; @ #. mode single: parse_witness(witness_to_string(w)) compared field by field (array contents at every recorded index); mode stream: 2-5 witnesses concatenated, parse_witnesses with every limit 1..=k must return the first `limit` witnesses in order. distinct_nontrivial = distinct witness texts with at least one state or input.".into()
+        "G4 complete witnesses: 1-3 failed properties (any order, indices up to 2^32-1), 0-6 states (bit-vectors of widths 1..200 and arrays with 1..2^iw recorded entries for iw<=5 or up to 12 entries for iw up to 64 (the array value type of the bit-vector library cannot hold wider indices at all), zero-valued entries, dense and sparse carriers with arbitrary defaults, recorded index list in any order), 0-5 bit-vector inputs, 0-8 steps (zero steps in one of eight witnesses, with or without an init frame), names over the printable alphabet without whitespace ; @ #. mode single: parse_witness(witness_to_string(w)) compared field by field (array contents at every recorded index); mode stream: 2-5 witnesses concatenated, parse_witnesses with every limit 1..=k must return the first `limit` witnesses in order. distinct_nontrivial = distinct witness texts with at least one state or input.".into()
     }
     fn assumptions(&self) -> Vec<String> {
         vec!["inputs are bit-vectors (the printer documents array inputs as unsupported); every state/input has a name and a value (complete witness)".into()]
